@@ -182,11 +182,27 @@ class CheckConvergence(Contract):
     special_floats = True  # the native cross-check also draws nan / +-inf / +-0.0 for residual and tolerances (bounded side check)
 
     def instances(self, tier):
-        return [dict(e_tol=False), dict(e_tol=True), dict(e_tol=True, increment_unset=True)]
+        base = [dict(e_tol=False), dict(e_tol=True), dict(e_tol=True, increment_unset=True)]
+        # stopping is decided on the FINEST level: with coarser levels present, their residuals / tolerances / increments are arbitrary other values
+        return base + [dict(b, nlevels=nl) for b in base for nl in (2, 3)]
 
     def build(self, inst, mk):
         lp = dict(e_tol=1.0) if inst['e_tol'] else {}
-        S = make_step(mk, M=1, level_params=lp, step_params=dict(maxiter=1), symbolic_level=False)
+        nl = inst.get('nlevels', 1)
+        if nl == 1:
+            S = make_step(mk, M=1, level_params=lp, step_params=dict(maxiter=1), symbolic_level=False)
+        else:
+            from contracts.ctrl import LinearSpaceTransfer
+
+            S = make_step(mk, M=1, level_params=lp, step_params=dict(maxiter=1), symbolic_level=False, nlevels=nl, space_transfer=LinearSpaceTransfer)
+            for l, Lc in enumerate(S.levels[1:], start=1):
+                Lc.status.residual = mk.real(f'coarse{l}.residual')
+                Lc.params.restol = mk.real(f'coarse{l}.restol')
+                Lc.status.sweep = mk.int(f'coarse{l}.sweep')
+                if inst['e_tol']:
+                    Lc.params.e_tol = mk.real(f'coarse{l}.e_tol')
+                    type(Lc.status).add_attr('increment')
+                    Lc.status.increment = mk.real(f'coarse{l}.increment')
         L = S.levels[0]
         S.status.iter = mk.int('iter')
         S.params.maxiter = mk.int('maxiter')
